@@ -1,13 +1,41 @@
-"""C07 - After a cancel request nothing new is submitted and live jobs are cancelled
+"""C07 - After a cancel request nothing new is submitted and live jobs are cancelled.
 
-Execution-graph correspondence (real ExecutionGraph driven by the scripted
-scheduler vs Model/Exec.lean, state compared after every operation) and the
-C07 monitor of harness/execsim.py evaluated on the real traces."""
+(1) execution-graph correspondence with cancel operations at arbitrary points and
+    the C07 monitor on the real trace;
+(2) conductor level: the request arrives the way `maestro cancel` delivers it (the
+    .cancel.lock file appears between two polls of the real Conductor.monitor_study):
+    the lock must be consumed, cancel_jobs called, and the study must return CANCELLED;
+(3) adapter side: the real Slurm / LSF / Flux / local cancel_jobs for empty and
+    non-empty lists (shared with the scheduler model, see c16.cancel_cases)."""
+import os
+import shutil
+
+import c16
+import condsim
 import execprop
+from corr import Case, compare, judge, account
 
 LEVEL = "proof"
-RULE = execprop.RULE
+RULE = execprop.RULE + "; plus conductor-level runs with the cancel lock file and the adapters' cancel_jobs"
 
 
 def run(ctx, escalated=False):
-    execprop.run(ctx, "C07", escalated)
+    quick = ctx.tier == "quick" and not escalated
+    cases = execprop.run(ctx, "C07", escalated, finish=False)
+    extra = c16.cancel_cases(ctx.rng)
+    for k in range(50 if quick else 1500):
+        r = condsim.run(ctx, ctx.rng, k, cancel_prob=0.2)
+        if r is None:
+            continue
+        extra.append(Case({"kind": "conductor", "spec": r["spec"], "polls": r["polls"], "returned": r["ret"],
+                           "cancel_at_poll": r["cancelled"]}, [], [], r["mon"]["C07"][:3],
+                          r["cancelled"] is not None))
+        ctx.count("conductor:" + r["ret"])
+        if k % 30 == 29:
+            shutil.rmtree(os.path.join(ctx.scratch, "cond"), ignore_errors=True)
+    import scripted as S
+    S.install()
+    cases = cases + extra
+    diffs = compare([c for c in cases if c.lines])
+    account(ctx, extra)
+    judge(ctx, cases, diffs, "execution-graph+conductor-cancel", shrink=execprop.shrink_factory(ctx, "C07"))
